@@ -381,6 +381,19 @@ func checkPositions(t *core.T, d doc, exp expected) {
 		t.Fail("policyset-parse-differs:"+kind(d), d.name, "parses", err.Error())
 		return
 	}
+	// SetFilename changes the file name of that policy's position and nothing else
+	for id, p := range ps.All() {
+		var k int
+		fmt.Sscanf(string(id), "policy%d", &k)
+		before := p.Position()
+		p.SetFilename("renamed.cedar")
+		want := before
+		want.Filename = "renamed.cedar"
+		if p.Position() != want || before.Filename != "file.cedar" {
+			t.Fail("SetFilename:"+kind(d), fmt.Sprintf("%s %s", d.name, id), fmt.Sprintf("%+v", want), fmt.Sprintf("%+v (was %+v)", p.Position(), before))
+		}
+		p.SetFilename("file.cedar")
+	}
 	req := cedar.Request{Principal: types.NewEntityUID("U", "é✓😀"), Action: types.NewEntityUID("Action", "a"), Resource: types.NewEntityUID("R", "r"),
 		Context: types.NewRecord(types.RecordMap{"a": types.String("x😀\n"), "n": types.Long(7), "x": types.Long(1)})}
 	_, diag := cedar.Authorize(ps, nil, req)
